@@ -16,13 +16,29 @@ MinCovered == 100
 \* S->C replays carry the sharing structure predicted by the heap model: a mismatch is a drift note
 ModelAgrees(ln) == Has(ln, "model_share") => ln.model_share = ln.real_share
 
+\* `x | y` is the *virtual* combination: the result shares the tensor objects of its operands, and when summed labels
+\* of x and y clash quimb renames those of y's (shared) tensors -- the documented meaning of `|`, not a mutation the
+\* statement forbids.  For such a call PlainPure demands: x untouched, and y still the same labelled network up to the
+\* names of its summed labels (same tensors, same arrays, same outer labels).
+VirtualRename(ln) == ln.name = "op |" /\ Has(ln, "inner_clash") /\ ln.inner_clash
+PlainPureT(ln) == IF VirtualRename(ln) THEN Untouched(ln.recv) /\ ln.args_same_content ELSE PlainPure(ln)
+ASSUME CallClauses([recv |-> [before |-> 0, after |-> 0], args |-> <<>>, sharers |-> <<>>, arrays |-> <<>>, perm |-> <<>>,
+                    hasinpl |-> FALSE, docself |-> FALSE])[1][1] = "PlainPure"
+
+\* the result of a plain spelling holds none of the tensor *objects* of its receiver / arguments (it may share
+\* their arrays); the virtual combination `|` documents that it does.  Not demanded by the statement: a note.
+ResultIsFresh(ln) == Has(ln, "aliases") => (ln.aliases = 0 \/ ln.name = "op |")
+
 \* a discovered pair is exercised, or exempt by the statement (documented in-place default) with a reason
 Covered(ln) == \/ ln.status = "covered"
                \/ ln.status = "exempt" /\ ln.reason # ""
                \/ ln.status = "norecipe"          \* reported by the note below, listed in the evidence
 
 Clauses(ln) ==
-  CASE ln.ev = "call" -> CallClauses(ln) \o << <<"NOTE:ModelDrift", ModelAgrees(ln)>> >>
+  CASE ln.ev = "call" -> << <<"PlainPure", PlainPureT(ln)>> >> \o Tail(CallClauses(ln))
+                         \o << <<"NOTE:VirtualCombineRenamesOperand", ~VirtualRename(ln) \/ PlainPure(ln)>>,
+                               <<"NOTE:ModelDrift", ModelAgrees(ln)>>,
+                                               <<"NOTE:ResultHoldsReceiverTensors", ResultIsFresh(ln)>> >>
     \* an in-place call (replayed model histories): `sharers` lists the objects that are not built on the
     \* receiver's tensor objects (copies that share its arrays, unrelated objects)
     [] ln.ev = "inplace" -> << <<"SharersUntouched", SharersUntouched(ln)>>, <<"ArraysUntouched", ArraysUntouched(ln)>>,
